@@ -1,6 +1,7 @@
 package props
 
 import (
+	"encoding/base64"
 	"bytes"
 	"context"
 	"fmt"
@@ -479,6 +480,7 @@ func c02WideStructs(c *h.Ctx) {
 func runC02(c *h.Ctx) {
 	defer c02RootValues(c)
 	defer c02WideStructs(c)
+	defer c02BinaryAfterGrowth(c)
 	// ---- conforming documents --------------------------------------------------------
 	c.Run("docs", c.N(6000, 250000), func(cs *h.Case) {
 		cc, ok := c02Make(cs)
@@ -679,9 +681,11 @@ struct BaseResp { 1: string StatusMessage = "", 2: i32 StatusCode = 0, 3: option
 	mainIDL := `include "base.thrift"
 namespace go verif
 struct Req { 1: string Msg, 2: i64 N, 3: list<i32> L, 255: base.Base Base, }
-service Svc { Req M(1: Req req), }
+struct Req7 { 1: string Msg, 2: i64 N, 3: list<i32> L, 7: base.Base Base, }
+struct ReqNo { 1: string Msg, 2: i64 N, 3: list<i32> L, }
+service Svc { Req M(1: Req req), Req7 M7(1: Req7 req), ReqNo MNo(1: ReqNo req), }
 `
-	var baseDesc *thrift.TypeDescriptor
+	var baseDesc, baseDesc7, baseDescNo *thrift.TypeDescriptor
 	c.Run("thrift-base", c.N(800, 20000), func(cs *h.Case) {
 		if baseDesc == nil {
 			opts := thrift.NewDefaultOptions()
@@ -697,6 +701,8 @@ service Svc { Req M(1: Req req), }
 				return
 			}
 			baseDesc = d
+			baseDesc7, _ = RootOf(svc, "M7")
+			baseDescNo, _ = RootOf(svc, "MNo")
 		}
 		b := &base.Base{LogID: string(gen.GenStr(cs.R, gen.ValCfg{MaxStr: 30})), Caller: "c", Addr: string(gen.GenStr(cs.R, gen.ValCfg{MaxStr: 20})), Client: ""}
 		if cs.R.Bool() {
@@ -771,6 +777,31 @@ service Svc { Req M(1: Req req), }
 			if derr != nil || !bytes.Equal(buf, want) {
 				cs.Viol("j2t:thrift-base:capacity-dependent", "cap", k, "err", derr, "base-len", len(bb), "doc-len", len(doc))
 				break
+			}
+		}
+		// the same converter on other root descriptors: the base goes where THAT descriptor declares it
+		if baseDesc7 != nil && baseDescNo != nil {
+			want7 := append(append([]byte{tref.STRUCT, 0, 7}, bb...), rest...)
+			for k := 0; k < 4; k++ {
+				d, w, name := baseDesc, want, "id255"
+				switch cs.R.Intn(3) {
+				case 1:
+					d, w, name = baseDesc7, want7, "id7"
+				case 2:
+					d, w, name = baseDescNo, rest, "none"
+				}
+				var o []byte
+				var e error
+				if cs.R.Bool() {
+					o, e = cv.Do(ctx, d, []byte(doc))
+				} else {
+					e = cv.DoInto(ctx, d, []byte(doc), &o)
+				}
+				if e != nil || !bytes.Equal(o, w) {
+					cs.Viol("j2t:thrift-base:converter-reused-across-descriptors", "desc", name, "step", k, "err", e, "got", o, "want", w)
+					break
+				}
+				cs.Cover("thrift_base_reused_converter_" + name)
 			}
 		}
 		cs.Cover("thrift_base_docs")
@@ -989,4 +1020,123 @@ func equalModNegZero(a, b *tref.Val) bool {
 	norm(x)
 	norm(y)
 	return tref.Equal(x, y)
+}
+
+// c02BinaryAfterGrowth: a base64 binary field behind members whose encoding is larger than their text (numbers
+// in lists), converted with DoInto into a caller's buffer that ends in front of a canary region. The output
+// must be the model's bytes whatever the buffer's capacity, and nothing may be stored behind the capacity.
+//
+// Known finding C02-K4 (native only): j2t_binary reserves 4 bytes and lets b64decode store the decoded bytes
+// without looking at the capacity (it relies on "free room >= length of the input", which only holds on entry).
+// Defect model: bytes behind the capacity change exactly when the buffer satisfied that entry condition (so the Go
+// side did not re-allocate) and the room left in front of the blob is >= 4 and < 4 + its decoded size.
+func c02BinaryAfterGrowth(c *h.Ctx) {
+	const idl = `namespace go verif
+struct S64 { 3: list<i64> C, 6: binary F, 7: string T }
+struct SD { 3: list<double> C, 6: binary F, 7: string T }
+struct S32 { 3: list<i32> C, 6: binary F, 7: string T }
+service Svc { S64 M64(1: S64 req), SD MD(1: SD req), S32 M32(1: S32 req), }
+`
+	var descs [3]*thrift.TypeDescriptor
+	c.Run("binary-after-growth", c.N(400, 6000), func(cs *h.Case) {
+		if descs[0] == nil {
+			svc, err := thrift.NewDescritorFromContent(context.Background(), "bag.thrift", idl, nil, false)
+			if err != nil {
+				cs.Viol("j2t:parse-idl", "err", err)
+				return
+			}
+			for i, m := range []string{"M64", "MD", "M32"} {
+				descs[i], _ = RootOf(svc, m)
+			}
+		}
+		k := cs.R.Intn(3)
+		et, esz := []byte{tref.I64, tref.DOUBLE, tref.I32}[k], []int{8, 8, 4}[k]
+		D := []int{0, 1, 2, 3, 30, 700, 3000, 9000}[cs.R.Intn(8)] + cs.R.Intn(40)
+		entryOK := cs.R.Chance(60)
+		// the list must fit into a buffer of the document's size (otherwise the converter moves to a buffer of its
+		// own in mid-call, where this monitor cannot see - and a store behind ITS capacity would corrupt the
+		// worker's heap); a buffer that is too small on entry is only paired with lists that cannot use up the room
+		nmax := (4 * D / 3) / (esz - 2)
+		if !entryOK {
+			nmax = 2
+		}
+		n := cs.R.Intn(nmax + 1)
+		blob := cs.R.Bytes(D)
+		tail := strings.Repeat("t", cs.R.Intn(30))
+		var sb strings.Builder
+		sb.WriteString(`{"C":[`)
+		l := &tref.Val{T: tref.LIST, ET: et}
+		for i := 0; i < n; i++ {
+			if i > 0 {
+				sb.WriteByte(',')
+			}
+			d := cs.R.Intn(10)
+			sb.WriteByte(byte('0' + d))
+			switch et {
+			case tref.I64:
+				l.L = append(l.L, tref.Int64(int64(d)))
+			case tref.DOUBLE:
+				l.L = append(l.L, tref.Double(float64(d)))
+			default:
+				l.L = append(l.L, tref.Int32(int32(d)))
+			}
+		}
+		sb.WriteString(`],"F":"` + base64.StdEncoding.EncodeToString(blob) + `","T":"` + tail + `"}`)
+		doc := sb.String()
+		want := tref.Encode(tref.Struct(tref.Field{ID: 3, V: l}, tref.Field{ID: 6, V: tref.Bin(blob)}, tref.Field{ID: 7, V: tref.Str(tail)}))
+		beforeBlob := 3 + 5 + n*esz + 3 // list field header + list header + elements + blob field header
+		// the caller's buffer: prefix bytes, capacity, canary behind it
+		prefix := []int{0, 0, 5, 300, 2000}[cs.R.Intn(5)]
+		var capN int
+		if entryOK {
+			capN = prefix + len(doc) + cs.R.Intn(3)*cs.R.Intn(200) // free room >= len(doc): used as it is
+		} else {
+			capN = prefix + cs.R.Intn(len(doc)) // too small on entry: must be re-allocated before use
+		}
+		const canaryLen = 64 << 10
+		region := make([]byte, capN+canaryLen)
+		tr := h.TrapCopy(region, false, false)
+		defer tr.Free()
+		for i := range tr.B {
+			tr.B[i] = 0xa5
+		}
+		buf := tr.B[0:prefix:capN]
+		cv := j2t.NewBinaryConv(conv.Options{})
+		cs.Info("shape", fmt.Sprintf("elem=%s n=%d blob=%d doc=%d prefix=%d cap=%d entry-room-ok=%v", tref.TypeName(et), n, D, len(doc), prefix, capN, entryOK))
+		err := cv.DoInto(context.Background(), descs[k], []byte(doc), &buf)
+		behind := 0
+		for i := capN; i < len(tr.B); i++ {
+			if tr.B[i] != 0xa5 {
+				behind++
+			}
+		}
+		room := capN - prefix - beforeBlob
+		predicted := !h.Portable && entryOK && room >= 4 && room < 4+D
+		if behind > 0 {
+			if predicted {
+				cs.Viol("j2t:binary-after-growth:stored-behind-capacity:room-used-up-before-blob", "bytes", behind, "room", room, "blob", D)
+			} else {
+				cs.Viol("j2t:binary-after-growth:stored-behind-capacity", "bytes", behind, "room", room, "blob", D, "entry-room-ok", entryOK)
+			}
+			return
+		}
+		if predicted {
+			cs.Cover("binary_overflow_predicted_not_observed")
+		}
+		for i := 0; i < prefix; i++ {
+			if buf[i] != 0xa5 {
+				cs.Viol("j2t:binary-after-growth:prefix-clobbered", "at", i)
+				return
+			}
+		}
+		if err != nil || !bytes.Equal(buf[prefix:], want) {
+			cs.Viol("j2t:binary-after-growth:bytes", "err", err, "got-len", len(buf)-prefix, "want-len", len(want))
+			return
+		}
+		cs.Cover("binary_after_growth_ok")
+		if entryOK {
+			cs.Cover("binary_after_growth_buffer_used_as_is")
+		}
+		cs.Distinct(fmt.Sprintf("bag-%d-%d-%d-%v", k, n/100, D/500, entryOK))
+	})
 }
